@@ -605,6 +605,109 @@ def run_attr_correspondence(ck, q):
     return mism
 
 
+def _cmp_aproto(mp, p):
+    """model AProto (driver JSON) vs decoded real AttributeProto, every value field"""
+    if mp["type"] != p["type"] or mp["name"] != p["name"]:
+        return f"type/name: model {mp['type']}/{mp['name']} real {p['type']}/{p['name']}"
+    if mp["i"] != p["i"]:
+        return f"i: model {mp['i']} real {p['i']}"
+    if not same_words("float32", [mp["f"]], [p["f"]]) or not same_words("float32", mp["floats"], p["floats"]):
+        return f"f/floats: model {mp['f']:#x} {mp['floats']} real {p['f']:#x} {p['floats']}"
+    if mp["s"] != list(p["s"]) or mp["ints"] != p["ints"] or mp["strings"] != [list(x) for x in p["strings"]]:
+        return f"s/ints/strings: model {mp['s']} {mp['ints']} {mp['strings']} real {list(p['s'])} {p['ints']} {p['strings']}"
+    keys = ("data_type", "dims", "int32_data", "int64_data", "uint64_data", "float_data", "double_data", "string_data")
+    rts = ([W.tensor_typed(p["t"])] if p["t"] is not None else []) + [W.tensor_typed(t) for t in p["tensors"]]
+    mts = ([mp["t"]] if mp["t"] is not None else []) + list(mp["tensors"])
+    if len(rts) != len(mts) or any(a[k] != b[k] for a, b in zip(mts, rts) for k in keys):
+        return f"tensors: model {str(mts)[:120]} real {str(rts)[:120]}"
+    return None
+
+
+def run_ref_correspondence(ck, q):
+    """tie H for Model/AttrRef.lean: chains of `AttrX(_Ref(prev, outer, rname), name)` over a concrete root - outcome
+    class, `_to_onnx()` of the reference (name, ref_attr_name, type), `.value` (the root's stored object), `deref()`."""
+    import spox._attributes as A
+
+    from translator.c10_tables import CLASSES
+
+    rng = ck.rng
+    vals = value_universe(rng, ck.pick(10, 400))
+    names = [c for c in CLASSES if hasattr(A, c) and c != "AttrGraph"]
+    reqs, real = [], []
+    for rcn in names:
+        for j, v in vals:
+            for _ in range(ck.pick(1, 3)):
+                chain = []
+                for k in range(rng.randrange(1, 4)):
+                    c = rcn if rng.random() < 0.75 else rng.choice(names)
+                    chain.append({"cls": c, "name": f"n{k}", "outer": f"o{k}", "rname": f"r{k}"})
+                reqs.append({"op": "ref", "q": q, "root": {"cls": rcn, "name": "root", "val": j}, "chain": chain})
+                real.append((rcn, j, v, chain))
+    outs = ck.driver().ask_many("C10", reqs)
+    mism = n = 0
+    for (rcn, j, v, chain), m in zip(real, outs):
+        if "error" in m:
+            mism += 1
+            ck.broken("correspondence", "C10 _Ref model (driver error)", f"{rcn} {j}: {m}")
+            continue
+        if m.get("in_domain") is False:
+            continue
+        n += 1
+        bad = None
+        try:
+            root = getattr(A, rcn)(copy.copy(v) if isinstance(v, list) else v, "root")
+            rerr = None
+        except Exception as e:  # noqa: BLE001
+            rerr = type(e).__name__
+        if rerr is not None:
+            if m.get("root_err") != rerr:
+                bad = f"root: real raises {rerr}, model {m}"
+        elif "root_err" in m:
+            bad = f"root: real accepts, model raises {m['root_err']}"
+        else:
+            cur, err = root, None
+            for i, c in enumerate(chain):
+                try:
+                    cur = getattr(A, c["cls"])(A._Ref(cur, c["outer"], c["rname"]), c["name"])
+                except Exception as e:  # noqa: BLE001
+                    err = (i, type(e).__name__)
+                    break
+            ck.count(("ref", rcn, j["k"], len(chain), err is None))
+            if err is not None:
+                if (m.get("at"), m.get("err")) != err:
+                    bad = f"real raises {err[1]} at link {err[0]}, model {m}"
+            elif "err" in m:
+                bad = f"real accepts the chain, model raises {m['err']} at {m['at']}"
+            else:
+                p = cur._to_onnx()
+                if (p.name, p.ref_attr_name, p.type) != (m["name"], m["ref"], m["type"]) or p.ByteSize() != len(
+                        type(p)(name=p.name, ref_attr_name=p.ref_attr_name, type=p.type).SerializeToString()):
+                    bad = f"reference proto: real ({p.name!r}, {p.ref_attr_name!r}, {p.type}), model ({m['name']!r}, {m['ref']!r}, {m['type']})"
+                elif cur.value is not root._value:
+                    bad = "value of the chain is not the root's stored object"
+                else:
+                    try:
+                        dp = W.attribute(cur.deref()._to_onnx().SerializeToString())
+                        derr = None
+                    except Exception as e:  # noqa: BLE001
+                        derr = type(e).__name__
+                    md = m["deref"]
+                    if derr is not None:
+                        if md.get("err") != derr:
+                            bad = f"deref: real raises {derr}, model {str(md)[:80]}"
+                    elif "ok" not in md:
+                        bad = f"deref: real accepts, model raises {md.get('err')}"
+                    else:
+                        bad = _cmp_aproto(md["ok"], dp)
+                        bad = bad and "deref: " + bad
+        if bad:
+            mism += 1
+            if mism <= 3:
+                ck.broken("correspondence", "C10 _Ref model vs real attribute references", f"{rcn}({str(v)[:50]!r}) chain {[c['cls'] for c in chain]}: {bad}")
+    ck.cov["ref_correspondence"] = {"cases": n, "mismatches": mism}
+    return mism
+
+
 # ------------------------------------------------------- tie H (2b): float rounding on the attribute path
 def boundary_doubles(rng, n_random):
     """binary64 patterns around everything that matters for (float)double."""
@@ -2001,6 +2104,266 @@ def run_oracle(ck):
     ck.cov["oracle"] = stats
 
 
+ARGDEF_ROUTES = ["arguments_dict", "arguments", "enum_arguments"]
+ARGDEF_SHAPES = [[], [1], [0], [1, 1], [2], [0, 3]]
+ARGDEF_DTYPES = ["float32", "int64", "bool", "str", "float16", "uint8", "float64"]
+
+
+def argdef_case(case):
+    """An argument default (the array handed to `arguments_dict` / `arguments` / `enum_arguments`) must keep its exact
+    shape - `()` stays `()`, `(1,)` stays `(1,)`, empty stays empty - in the Var's type, in the graph input's type and
+    in the initializer of the built model (both `spox.build` and `results().with_arguments().to_onnx_model()`)."""
+    import numpy as np
+
+    import spox
+    import spox.opset.ai.onnx.v17 as op
+    from spox import Tensor
+
+    G = _imp("spox._graph")
+    fn = getattr(G, case["route"], None) if G is not None else None
+    if fn is None:
+        return [("unobservable", f"spox._graph.{case['route']} is not there")]
+    d, shape = case["dtype"], list(case["shape"])
+    n = numel(shape)
+    if d == "str":
+        arr = np.array(["ü%d" % i for i in range(n)], dtype=np.str_).reshape(shape) if n else np.zeros(shape, dtype="<U2")
+    elif d == "bool":
+        arr = (np.arange(n) % 2 == 0).reshape(shape)
+    else:
+        arr = (np.arange(n) + 3).astype(np_dtype(d)).reshape(shape)
+    try:
+        if case["route"] == "arguments_dict":
+            var, name = fn(x=arr)["x"], "x"
+        elif case["route"] == "arguments":
+            (var,), name = fn(x=arr), "x"
+        else:
+            (var,), name = fn(arr, prefix="x"), "x0"
+        y = op.identity(var)
+        if case["build"] == "build":
+            mb = spox.build({name: var}, {"y": y}).SerializeToString()
+        else:
+            results = getattr(G, "results")
+            mb = results(y=y).with_arguments(var).to_onnx_model().SerializeToString()
+    except Exception as e:  # noqa: BLE001
+        return [("raises", f"{case['route']}({d}{shape}) / {case['build']} raised {type(e).__name__}: {str(e)[:160]}")]
+    probs = []
+    want = Tensor(np_dtype(d) if d != "str" else np.dtype(str), tuple(shape))
+    if var.type != want:
+        probs.append(("vartype", f"Var.type is {var.type}, the default has {want}"))
+    g = W.graph_of_model(mb)
+    gi = next((i for i in W.graph_inputs(g) if i["name"] == name), None)
+    if gi is None:
+        probs.append(("graph-input", f"no graph input named {name!r}"))
+    elif gi["elem_type"] != W.ONNX_ENUM[d] or not gi["has_shape"] or gi["dims"] != shape:
+        probs.append(("graph-input", f"graph input {name!r} has element type {gi['elem_type']}, dims {gi['dims'] if gi['has_shape'] else 'absent'}; the default is {d} (= {W.ONNX_ENUM[d]}) {shape}"))
+    t = next((t for t in W.graph_parts(g)["initializers"] if t["name"] == name), None)
+    if t is None:
+        probs.append(("initializer", f"no initializer named {name!r}"))
+    else:
+        if t["dims"] != shape or t["data_type"] != W.ONNX_ENUM[d]:
+            probs.append(("initializer", f"initializer dims {t['dims']} type {t['data_type']}, the default is {d}{shape}"))
+        exp = _obs_array(arr)["data"]
+        got = t.get("words") if d != "str" else [list(x) for x in t.get("strs", [])]
+        if not (got == exp if d == "str" else same_words(d, got, exp)):
+            probs.append(("values", f"initializer elements {str(got)[:80]}, the default has {str(exp)[:80]}"))
+    return probs
+
+
+def run_argdef_oracle(ck):
+    n = 0
+    for route in ARGDEF_ROUTES:
+        for build in ("build", "with_arguments"):
+            for d in ARGDEF_DTYPES:
+                for shape in ARGDEF_SHAPES:
+                    case = {"kind": "argdef", "route": route, "build": build, "dtype": d, "shape": shape}
+                    n += 1
+                    ck.count(("argdef", route, build, d, tuple(shape)))
+                    try:
+                        probs = argdef_case(case)
+                    except Exception as e:  # noqa: BLE001
+                        UNOBSERVABLE.setdefault(f"argument-default oracle ({route})", f"{type(e).__name__}: {e}"[:200])
+                        continue
+                    for key, what in probs:
+                        if key == "unobservable":
+                            UNOBSERVABLE.setdefault(f"route {route}", what)
+                            continue
+                        rank = "0d" if not shape else "empty" if 0 in shape else "1elem" if numel(shape) == 1 else "nd"
+                        ck.failure(f"argdef:{route}:{rank}:{key}", f"{route}(x=<{d}{shape}>) via {build}: {what}", case)
+    ck.cov["argdef_oracle"] = {"cases": n}
+
+
+def run_ref_oracle(ck):
+    """Attributes of every kind referenced (`_Ref`) inside a user-defined Function: call node and function body of the
+    built model (harness/lib_c10fun.py)."""
+    try:
+        from harness import lib_c10fun as F
+    except Exception as e:  # noqa: BLE001  the recipe's internals are gone: not a verdict
+        UNOBSERVABLE.setdefault("Function/_Ref recipe", f"{type(e).__name__}: {e}"[:200])
+        return
+    ck.count(("attr-ref", "function"))
+    try:
+        probs = F.run()
+    except Exception as e:  # noqa: BLE001  a reference to an attribute of the right kind must be accepted
+        probs = [(f"raises:{type(e).__name__}", f"building a Function whose body refers to its attributes raised {type(e).__name__}: {str(e)[:160]}")]
+    for key, what in probs:
+        ck.failure(f"attr-ref:{key}", f"Function with referenced attributes: {what}", {"kind": "attr_ref"})
+    ck.cov["ref_oracle"] = {"kinds": len(F.KINDS), "problems": len(probs)}
+
+
+def type_attr_cases():
+    """TYPE_PROTO attributes (`optional(type=…)`): (description, spox type, expected decoded TypeProto)."""
+    import numpy as np
+
+    from spox import Optional as SOptional, Sequence as SSequence, Tensor
+
+    E = W.ONNX_ENUM
+    return [
+        ("Tensor(float32, (2,))", Tensor(np.float32, (2,)), ("tensor", E["float32"], [2])),
+        ("Tensor(int64, ())", Tensor(np.int64, ()), ("tensor", E["int64"], [])),
+        ("Tensor(str, ('N', None, 3))", Tensor(np.str_, ("N", None, 3)), ("tensor", E["str"], ["N", None, 3])),
+        ("Tensor(bool, None)", Tensor(np.bool_, None), ("tensor", E["bool"], None)),
+        ("Tensor(uint64, (0,))", Tensor(np.uint64, (0,)), ("tensor", E["uint64"], [0])),
+        ("Sequence(Tensor(float16, (1, 'M')))", SSequence(Tensor(np.float16, (1, "M"))), ("seq", ("tensor", E["float16"], [1, "M"]))),
+        ("Sequence(Tensor(int8, None))", SSequence(Tensor(np.int8, None)), ("seq", ("tensor", E["int8"], None))),
+    ]
+
+
+def type_attr_case(desc):
+    import spox.opset.ai.onnx.v17 as op
+
+    d, t, want = next(c for c in type_attr_cases() if c[0] == desc)
+    try:
+        a = _first_attr_tensor(_build_bytes(op.optional(type=t)), "Optional", "type")
+    except Exception as e:  # noqa: BLE001
+        return f"optional(type={d}) raised {type(e).__name__}: {str(e)[:120]}"
+    if a is None or a["name"] != "type" or a["type"] != W.ATTR_TYPE["TYPE_PROTO"] or a["tp"] is None:
+        return f"optional(type={d}): attribute {None if a is None else (a['name'], a['type'])}, expected a TYPE_PROTO named 'type'"
+    got = W.type_proto(a["tp"])
+    if got != want:
+        return f"optional(type={d}): embedded type {got}, handed over {want}"
+    return None
+
+
+def run_type_attr_oracle(ck):
+    for d, _, _ in type_attr_cases():
+        ck.count(("type-attr", d))
+        bad = type_attr_case(d)
+        if bad:
+            ck.failure(f"attr-kind:optional:type:{d.split('(')[0]}", bad, {"kind": "type_attr", "desc": d})
+
+
+def _site_rows(sinfo):
+    import collections
+
+    by = collections.defaultdict(list)
+    for r in sinfo["rows"]:
+        by[(r["mod"], r["ctor"])].append(r)
+    return by
+
+
+def run_site_case(synth, by, case):
+    """One case of the attribute-site oracle -> None | ('skip', why) | (part, what)."""
+    from harness import lib_c10sites as S
+
+    if case["level"] == "class":
+        A = _imp("spox._attributes")
+        if A is None or not hasattr(A, case["cls"]):
+            return ("skip", "class not there")
+        if case["cls"] == "AttrTensors":
+            return S.run_tensors_case(A, case["form"], case["way"])
+        return S.run_class_case(A, case["cls"], case["form"], case["way"], case["items"])
+    rows = by.get((case["mod"], case["ctor"]), [])
+    row = next((r for r in rows if r["param"] == case["param"]), None)
+    if row is None:
+        return ("skip", "the constructor attribute is not in the inventory any more")
+    if case["way"].startswith("mixed:"):
+        return S.run_mixed_case(synth, row, rows, case["way"].split(":", 1)[1])
+    if row["cls"] in S.LIST_KIND:
+        return S.run_list_case(synth, row, rows, case["way"])
+    if row["cls"] == "AttrDtype":
+        return S.run_dtype_case(synth, row, rows, case["way"])
+    if row["cls"] == "AttrTensor":
+        return S.run_tensor_case(synth, row, rows, case["way"])
+    return S.run_scalar_case(synth, row, rows, case["way"])
+
+
+def run_site_oracle(ck, sinfo):
+    """Every attribute of every shipped constructor x the ways a caller can hand the value over (one-shot iterables,
+    numpy containers, views ...): exact items, ONNX name and type in the built model, captured at the call."""
+    from harness import lib_c10sites as S
+
+    rng = ck.rng
+    by = _site_rows(sinfo)
+    synth = S.Synth()
+    cases = []
+    # (a) the classes themselves, both entry points, every way, several item lists
+    for cname, kind in S.LIST_KIND.items():
+        for form in ("direct", "maybe"):
+            for way in S.CONTAINERS:
+                for items in S.CLASS_ITEMS[kind]:
+                    cases.append({"kind": "attr_site", "level": "class", "cls": cname, "form": form, "way": way, "items": items})
+    for form in ("direct", "maybe"):
+        for way in ("list", "tuple", "generator", "iter", "map", "deque", "dict_values", "chain"):
+            cases.append({"kind": "attr_site", "level": "class", "cls": "AttrTensors", "form": form, "way": way, "items": None})
+    # (b) every list attribute of every constructor: required ones with every way, optional ones with every one-shot
+    #     way in the thorough tier and a seeded selection (always at least one one-shot way) in the quick tier
+    for r in sinfo["rows"]:
+        if r["cls"] in S.LIST_KIND:
+            if r["form"] == "direct" or ck.thorough:
+                ways = list(S.CONTAINERS)
+            else:
+                ways = [rng.choice(S.ONE_SHOT)] + rng.sample([w for w in S.CONTAINERS if w not in S.ONE_SHOT], 2)
+            for way in ways:
+                cases.append({"kind": "attr_site", "level": "op", "mod": r["mod"], "ctor": r["ctor"], "param": r["param"],
+                              "cls": r["cls"], "form": r["form"], "way": way})
+        elif r["cls"] in S.SCALAR_KIND or r["cls"] in ("AttrDtype", "AttrTensor"):
+            allw = S.DTYPE_WAYS if r["cls"] == "AttrDtype" else S.TENSOR_WAYS if r["cls"] == "AttrTensor" else S.SCALAR_WAYS[S.SCALAR_KIND[r["cls"]]]
+            ways = allw if ck.thorough or r["cls"] in ("AttrDtype", "AttrTensor") else ["py", rng.choice(allw[1:])]
+            for way in ways:
+                cases.append({"kind": "attr_site", "level": "op", "mod": r["mod"], "ctor": r["ctor"], "param": r["param"],
+                              "cls": r["cls"], "form": r["form"], "way": way})
+    # (c) mixed-opset programs: every attribute of the older modules next to a node of the newest one (the node is
+    #     version-adapted at build time), with the value equal to the schema default and with another value
+    for r in sinfo["rows"]:
+        if r["param"] and r["mod"] not in ("v21", "ml_v5") and (r["cls"] in S.LIST_KIND or r["cls"] in S.SCALAR_KIND or r["cls"] == "AttrDtype"):
+            for which in ("default", "other"):
+                if which == "other" and not ck.thorough and r["mod"] != "v17" and rng.random() < 0.5:
+                    continue
+                cases.append({"kind": "attr_site", "level": "op", "mod": r["mod"], "ctor": r["ctor"], "param": r["param"],
+                              "cls": r["cls"], "form": r["form"], "way": "mixed:" + which})
+    stats = {"cases": 0, "skipped_way": 0, "rows_reached": set(), "rows_unreached": {}}
+    import warnings
+
+    warnings.filterwarnings("ignore")  # InferenceWarning of inputs of unknown rank: not this property's business
+    for case in cases:
+        try:
+            out = run_site_case(synth, by, case)
+        except Exception as e:  # noqa: BLE001  a harness problem is not a verdict
+            UNOBSERVABLE.setdefault(f"attribute-site oracle ({case.get('ctor') or case.get('cls')})", f"{type(e).__name__}: {e}"[:200])
+            continue
+        rowkey = (case.get("mod"), case.get("ctor"), case.get("param")) if case["level"] == "op" else (case["cls"], case["form"])
+        if out is not None and out[0] == "skip":
+            if out[1] == "way not applicable":
+                stats["skipped_way"] += 1
+            elif out[1].startswith("mixed build raises"):
+                stats["mixed_unbuildable"] = stats.get("mixed_unbuildable", 0) + 1
+            else:
+                stats["rows_unreached"][".".join(map(str, rowkey))] = out[1][:90]
+            continue
+        stats["cases"] += 1
+        stats["rows_reached"].add(rowkey)
+        ck.count(("attr-site", case["level"], case["cls"], case["form"], case["way"]))
+        if out is not None:
+            part, what = out
+            where = case["cls"] if case["level"] == "class" else f"{case['mod']}.{case['ctor']}.{case['param']}"
+            ck.failure(f"attr-site:{case['cls']}:{case['form']}:{case['way']}:{part}", f"{where}: {what}", case)
+    stats["rows_reached"] = len(stats["rows_reached"])
+    stats["rows_unreached_n"] = len(stats["rows_unreached"])
+    stats["rows_unreached"] = dict(list(stats["rows_unreached"].items())[:12])
+    stats["synth_calls"] = synth.attempts
+    ck.cov["attr_site_oracle"] = stats
+
+
 def shrink_capture(site, case):
     """Shortest failing prefix / single mutation of the history."""
     for m in case["muts"]:
@@ -2033,12 +2396,25 @@ def run(ck: core.Check):
             ck.broken("translator", f"C10 {what} not extractable", why)
         if info["capture_probe_errors"]:
             ck.notes.append(f"capture probes that raised: {info['capture_probe_errors']}")
+    from translator import c10_attrsites
+
+    try:
+        sinfo = c10_attrsites.generate()
+    except Exception as e:  # noqa: BLE001
+        sinfo = {"rows": [], "irregular": ["<translator failed>"], "multi": [], "per_mod": {}, "shapes": [], "live_mismatches": []}
+        ck.broken("translator", "C10 attribute sites not extractable", f"{type(e).__name__}: {e}"[:300])
+    ck.cov["attr_sites"] = {"rows": len(sinfo["rows"]), "per_module": sinfo["per_mod"], "irregular": sinfo["irregular"][:10],
+                            "multi_use": sinfo["multi"][:10], "live_mismatches": sinfo["live_mismatches"][:10],
+                            "shapes": [f"{x['cls']}/{x['form']}/{'required' if x['required'] else 'optional'}: {x['count']}" for x in sinfo["shapes"]],
+                            "required_list_attributes": [f"{r['mod']}.{r['ctor']}.{r['param']}:{r['cls']}" for r in sinfo["rows"]
+                                                         if r["form"] == "direct" and r["cls"] in ("AttrInt64s", "AttrFloat32s", "AttrStrings", "AttrTensors")]}
     ck.lean(["SpoxModel.Props.C10"], audit="SpoxModel.Audit.C10")
     if ck.thorough:
         ck.leanchecker(["SpoxModel.Props.C10"])
     q = platform_quietens()
     for facet, fn in (("fromArray/toArray", lambda: run_enc_correspondence(ck, q)),
                       ("Attr constructors", lambda: run_attr_correspondence(ck, q)),
+                      ("attribute references", lambda: run_ref_correspondence(ck, q)),
                       ("float rounding", lambda: run_float_correspondence(ck)),
                       ("const/initializer/constant", lambda: run_embed_correspondence(ck, q)),
                       ("capture", lambda: run_capture_correspondence(ck, info) if info else None)):
@@ -2049,6 +2425,23 @@ def run(ck: core.Check):
             ck.broken("correspondence", f"C10 {facet} not observable", f"{type(e).__name__}: {e}"[:300])
     run_oracle(ck)
     ck.log("oracle done")
+    try:
+        run_type_attr_oracle(ck)
+    except Exception as e:  # noqa: BLE001
+        ck.broken("correspondence", "C10 TYPE_PROTO attribute oracle not runnable", f"{type(e).__name__}: {e}"[:300])
+    try:
+        run_ref_oracle(ck)
+    except Exception as e:  # noqa: BLE001
+        ck.broken("correspondence", "C10 attribute-reference oracle not runnable", f"{type(e).__name__}: {e}"[:300])
+    try:
+        run_argdef_oracle(ck)
+    except Exception as e:  # noqa: BLE001
+        ck.broken("correspondence", "C10 argument-default oracle not runnable", f"{type(e).__name__}: {e}"[:300])
+    try:
+        run_site_oracle(ck, sinfo)
+        ck.log("attribute-site oracle done")
+    except Exception as e:  # noqa: BLE001
+        ck.broken("correspondence", "C10 attribute-site oracle not runnable", f"{type(e).__name__}: {e}"[:300])
     for facet, why in UNOBSERVABLE.items():
         ck.broken("correspondence", f"C10 {facet} not observable", why)
     ck.exhaustive = False
@@ -2133,4 +2526,33 @@ def replay(ck: core.Check, doc) -> bool:
         for part, what in problems:
             print(f"{site.name}: {what}")
         return bool(problems)
+    if kind == "type_attr":
+        bad = type_attr_case(case["desc"])
+        print(bad or "ok")
+        return bool(bad)
+    if kind == "attr_ref":
+        from harness import lib_c10fun as F
+
+        try:
+            probs = F.run()
+        except Exception as e:  # noqa: BLE001
+            probs = [(f"raises:{type(e).__name__}", str(e)[:200])]
+        for k, w in probs:
+            print(f"{k}: {w}")
+        return bool(probs)
+    if kind == "argdef":
+        probs = argdef_case(case)
+        for k, w in probs:
+            print(f"{k}: {w}")
+        return any(k != "unobservable" for k, _ in probs)
+    if kind == "attr_site":
+        from harness import lib_c10sites as S
+        from translator import c10_attrsites
+
+        import warnings
+
+        warnings.filterwarnings("ignore")
+        out = run_site_case(S.Synth(), _site_rows(c10_attrsites.generate()), case)
+        print(f"{case.get('ctor') or case.get('cls')} <{case['way']}>: {'ok' if out is None else out}")
+        return out is not None and out[0] != "skip"
     raise ValueError(f"unknown replay kind {kind}")
